@@ -240,7 +240,9 @@ func extractTarGz(tarGzFile, dest string) error {
 			return err
 		}
 		target := filepath.Join(dest, header.Name)
-		if !strings.HasPrefix(target, filepath.Clean(dest)+string(os.PathSeparator)) {
+		// an entry such as "./" (written by `tar -C dir .`) names the destination
+		// itself; everything else must stay strictly below it
+		if target != filepath.Clean(dest) && !strings.HasPrefix(target, filepath.Clean(dest)+string(os.PathSeparator)) {
 			return fmt.Errorf("%s: illegal file path", target)
 		}
 		switch header.Typeflag {
